@@ -326,3 +326,28 @@ def whole_programs(draw, tier, first_failures=False, size=None):
     if draw(st.integers(0, 5)) == 0:
         prog['till'] = draw(st.sampled_from([0 if prog['start'] == 0 else 1, 1, 2, 5]))
     return {'prog': prog, 'targets': targets}
+
+
+# ---------------------------------------------------------------------------
+def ctl_variants(prog, it, max_rounds=5, limit=120):
+    """Systematic placement of the notification of every `until(flag 0)` in `prog`: the controller root
+    'ctl' ([at_eq t, instant * n, set_flag 0]) is rewritten for every date t at which the baseline run `it`
+    logged something and every round n of that time step - an until-interrupt / forceful close landing in
+    (nearly) every turn of the run.  Yields modified copies of the program."""
+    import copy
+    times = sorted({e[4] for e in it.log if e[0] <= it.end_seq and e[4] is not None})
+    roots = [r['name'] for r in prog['roots']]
+    if 'ctl' not in roots:
+        return
+    count = 0
+    for t in times:
+        for n in range(max_rounds + 1):
+            if count >= limit:
+                return
+            q = copy.deepcopy(prog)
+            for r in q['roots']:
+                if r['name'] == 'ctl':
+                    r['steps'] = [{'op': 'at_eq', 't': t}] + [{'op': 'instant'} for _ in range(n)] + \
+                                 [{'op': 'set_flag', 'i': 0, 'v': True}]
+            count += 1
+            yield q
